@@ -8,6 +8,7 @@ import (
 	"net/http"
 	"net/http/httptest"
 	"net/textproto"
+	"os"
 	"sort"
 	"strings"
 	"testing"
@@ -17,6 +18,7 @@ import (
 	"github.com/oauth2-proxy/oauth2-proxy/v7/pkg/apis/options"
 	sessionsapi "github.com/oauth2-proxy/oauth2-proxy/v7/pkg/apis/sessions"
 	"github.com/oauth2-proxy/oauth2-proxy/v7/pkg/middleware"
+	"github.com/spf13/pflag"
 )
 
 func init() { vDrivers["C07"] = driveC07 }
@@ -276,8 +278,64 @@ func vC07LegacyConversion(t *testing.T, out *vEmitter) {
 	}
 }
 
+// vC07LegacyLoaded: the same nine flags given the way an operator gives them - on the command line, in a configuration
+// file, in the environment - and loaded by main's own loader: each option reaches the header lists under its own name.
+func vC07LegacyLoaded(t *testing.T, out *vEmitter) {
+	names := []string{"pass-basic-auth", "pass-access-token", "pass-user-headers", "pass-authorization-header", "set-basic-auth", "set-xauthrequest",
+		"set-authorization-header", "prefer-email-to-user", "skip-auth-strip-headers"}
+	for mask := 0; mask < 512; mask++ {
+		bit := func(i int) bool { return mask&(1<<i) != 0 }
+		for _, form := range []string{"flags", "config-file", "environment"} {
+			if form != "flags" && mask%7 != 0 && mask != 511 && !vThorough() {
+				continue
+			}
+			var args []string
+			toml := ""
+			env := map[string]string{}
+			for i, n := range names {
+				v := fmt.Sprint(bit(i))
+				switch form {
+				case "flags":
+					args = append(args, "--"+n+"="+v)
+				case "config-file":
+					toml += strings.ReplaceAll(n, "-", "_") + "=" + v + "\n"
+				default:
+					env["OAUTH2_PROXY_"+strings.ToUpper(strings.ReplaceAll(n, "-", "_"))] = v
+				}
+			}
+			switch form {
+			case "flags":
+				args = append(args, "--basic-auth-password=legacy-pw")
+			case "config-file":
+				toml += "basic_auth_password=\"legacy-pw\"\n"
+			default:
+				env["OAUTH2_PROXY_BASIC_AUTH_PASSWORD"] = "legacy-pw"
+			}
+			cf := ""
+			if toml != "" {
+				cf = vWriteFile("c07-legacy-loaded.toml", toml)
+			}
+			for k, v := range env {
+				os.Setenv(k, v)
+			}
+			loaded, err := loadConfiguration(cf, "", pflag.NewFlagSet("verif", pflag.ContinueOnError), args)
+			for k := range env {
+				os.Unsetenv(k)
+			}
+			if err != nil {
+				out.Violation("headers/legacy-options-not-loaded", "legacy header options in a documented form were refused by the loader", map[string]interface{}{"form": form, "error": err.Error()})
+				continue
+			}
+			out.Case("legacy-loaded/"+form, true, vL(vHdrCfgSX(loaded.InjectRequestHeaders), vHdrCfgSX(loaded.InjectResponseHeaders)),
+				vL("legacy_headers", vBool(bit(0)), vBool(bit(1)), vBool(bit(2)), vBool(bit(3)), vBool(bit(4)), vBool(bit(5)), vBool(bit(6)), vBool(bit(7)), vBool(bit(8)), vS("legacy-pw")))
+			out.Stat("legacy_loaded_configs", 1)
+		}
+	}
+}
+
 func vC07Legacy(t *testing.T, out *vEmitter) {
 	vC07LegacyConversion(t, out)
+	vC07LegacyLoaded(t, out)
 	htp := vWriteFile("c07-htpasswd", "htuser:{SHA}"+base64.StdEncoding.EncodeToString(vSHA1([]byte("htpass")))+"\n")
 	n := 0
 	for mask := 0; mask < 512; mask++ {
